@@ -10,6 +10,12 @@
 //!   witness     fixed cases: the witnesses of the `_fails` theorems, replayed on the real code
 //!   sys         oracle only: DEFINE/STORE/FLUSH/QUERY through the real engine with each renderer
 //!
+//! Every table case is compared encoding by encoding (eight lines per case): JSON frames and text
+//! frames through the writer, the Arrow stream, the other frame kind of both renderers called
+//! directly on the emitted rows, and the buffered `render()` of a table by the three renderers.
+//! The oracle compares all JSON-family encodings with each other first: a disagreement inside that
+//! family is never attributed to a known finding.
+//!
 //! The produced bytes are decoded by independent readers (a small JSON reader written here,
 //! arrow's own IPC `StreamReader`), printed as one canonical line and compared with the Lean
 //! model's prediction. The oracle evaluates the property itself on the decoded streams.
@@ -471,6 +477,130 @@ fn decode_arrow(bytes: &[u8]) -> Result<AStream, String> {
     Ok(AStream { cols, batches })
 }
 
+/// Decodes frames produced by calling `stream_batch` / `stream_row` directly (no schema frame):
+/// the rows they carry, in order.
+fn decode_bare_frames(bytes: &[u8], cols: &[(String, String)]) -> Result<Vec<Vec<Cell>>, String> {
+    let mut out = vec![];
+    for line in bytes.split(|b| *b == b'\n').filter(|l| !l.is_empty()) {
+        let v = parse_json(line)?;
+        match member(&v, "type") {
+            Some(J::Str(t)) if t == b"batch" => match member(&v, "rows") {
+                Some(J::Arr(rows, _, _)) => {
+                    for r in rows {
+                        match r {
+                            J::Arr(cells, _, _) => out.push(cells.iter().map(|c| cell_of_json(c, line)).collect::<Result<Vec<_>, _>>()?),
+                            _ => return Err("row is not an array".into()),
+                        }
+                    }
+                }
+                _ => return Err("batch without rows".into()),
+            },
+            Some(J::Str(t)) if t == b"row" => match member(&v, "values") {
+                Some(J::Obj(kv, _, _)) => {
+                    if kv.len() != cols.len() || kv.iter().zip(cols).any(|((k, _), (n, _))| k != n.as_bytes()) {
+                        return Err("row keys differ from the column names".into());
+                    }
+                    out.push(kv.iter().map(|(_, c)| cell_of_json(c, line)).collect::<Result<Vec<_>, _>>()?);
+                }
+                _ => return Err("row without values".into()),
+            },
+            _ => return Err("unexpected frame".into()),
+        }
+    }
+    Ok(out)
+}
+
+/// Decoded buffered rendering of a table.
+struct Rendered {
+    status: Option<i128>,
+    count: Option<i128>,
+    cols: Vec<(Vec<u8>, Vec<u8>)>,
+    rows: Vec<Vec<Cell>>,
+}
+
+impl Rendered {
+    fn show(&self, tag: &str) -> String {
+        let cols = self.cols.iter().map(|(n, t)| format!("{}:{}", hex(n), hex(t))).collect::<Vec<_>>().join(",");
+        format!(
+            "{tag} status={} count={} cols=[{cols}] rows={}",
+            self.status.map(|x| x.to_string()).unwrap_or("-".into()),
+            self.count.map(|x| x.to_string()).unwrap_or("-".into()),
+            self.rows.iter().map(|r| show_row(r)).collect::<String>()
+        )
+    }
+}
+
+fn num_member(o: &J, k: &str) -> Option<i128> {
+    match member(o, k) {
+        Some(J::Num(n)) => n.parse().ok(),
+        _ => None,
+    }
+}
+
+/// `{"columns":[..],"rows":[[..]]}`; a column is `{"name","type"}` (JSON / Arrow renderer) or
+/// `[name, type]` (text renderer).
+fn decode_table_obj(t: &J, src: &[u8]) -> Result<(Vec<(Vec<u8>, Vec<u8>)>, Vec<Vec<Cell>>), String> {
+    let mut cols = vec![];
+    match member(t, "columns") {
+        Some(J::Arr(cs, _, _)) => {
+            for c in cs {
+                match c {
+                    J::Arr(p, _, _) if p.len() == 2 => match (&p[0], &p[1]) {
+                        (J::Str(n), J::Str(ty)) => cols.push((n.clone(), ty.clone())),
+                        _ => return Err("bad column pair".into()),
+                    },
+                    _ => match (member(c, "name"), member(c, "type")) {
+                        (Some(J::Str(n)), Some(J::Str(ty))) => cols.push((n.clone(), ty.clone())),
+                        _ => return Err("bad column".into()),
+                    },
+                }
+            }
+        }
+        _ => return Err("table without columns".into()),
+    }
+    let mut rows = vec![];
+    match member(t, "rows") {
+        Some(J::Arr(rs, _, _)) => {
+            for r in rs {
+                match r {
+                    J::Arr(cells, _, _) => rows.push(cells.iter().map(|c| cell_of_json(c, src)).collect::<Result<Vec<_>, _>>()?),
+                    _ => return Err("row is not an array".into()),
+                }
+            }
+        }
+        _ => return Err("table without rows".into()),
+    }
+    Ok((cols, rows))
+}
+
+/// Reader of `render(Response::ok_table(..))` for renderer `tag` (`j`, `u`, `a`).
+fn decode_rendered(tag: char, out: &[u8]) -> Result<Rendered, String> {
+    match tag {
+        'u' => {
+            // "<code> <message>\n<table json>\n"
+            let nl = out.iter().position(|b| *b == b'\n').ok_or("no header line")?;
+            let head = &out[..nl];
+            let code = head.split(|b| *b == b' ').next().unwrap_or(&[]);
+            let status = std::str::from_utf8(code).ok().and_then(|t| t.parse::<i128>().ok());
+            let body = out[nl + 1..].strip_suffix(b"\n").ok_or("no table line")?;
+            let t = parse_json(body)?;
+            let (cols, rows) = decode_table_obj(&t, body)?;
+            Ok(Rendered { status, count: None, cols, rows })
+        }
+        _ => {
+            let line = out.strip_suffix(b"\n").ok_or("no trailing newline")?;
+            let v = parse_json(line)?;
+            let t = match member(&v, "results") {
+                Some(J::Arr(a, _, _)) if a.len() == 1 => &a[0], // JSON renderer: [ {table} ]
+                Some(t @ J::Obj(..)) => t,                       // Arrow renderer: {table}
+                _ => return Err("no results".into()),
+            };
+            let (cols, rows) = decode_table_obj(t, line)?;
+            Ok(Rendered { status: num_member(&v, "status"), count: num_member(&v, "count"), cols, rows })
+        }
+    }
+}
+
 // ------------------------------------------------------------------ generated cases
 
 #[derive(Clone, Copy, PartialEq, Debug)]
@@ -674,6 +804,9 @@ fn gen_case(r: &mut Rng, big: bool) -> Case {
         _ => 10,
     };
     let ints_in_float = r.chance(1, 10);
+    // in a third of the cases string columns often hold JSON text / digit strings above i64::MAX
+    // (the strings `to_json` re-parses), also in otherwise conforming tables
+    let reparsed_strings = r.chance(1, 3);
     let id_range = 1 + r.below(12) as i64;
     let nb = if big { r.below(9) } else { r.below(6) } as usize;
     let mut batches = vec![];
@@ -699,6 +832,8 @@ fn gen_case(r: &mut Rng, big: bool) -> Case {
                     }
                 } else if ints_in_float && b == Builder::Float64 && r.chance(2, 3) {
                     ScalarValue::Int64(if r.chance(2, 3) { gen_rounding_int(r) } else { gen_int(r) })
+                } else if reparsed_strings && b == Builder::Utf8 && r.chance(1, 3) {
+                    ScalarValue::Utf8(gen_reparsed_string(r))
                 } else if den != 0 && r.chance(1, den) {
                     gen_any(r)
                 } else {
@@ -900,7 +1035,8 @@ fn conforms(b: Builder, v: &ScalarValue) -> bool {
     }
 }
 
-/// Finding class of a cell on which the encodings disagree ("-" = none: a violation).
+/// Finding class a generated cell can fall into (input statistics only; the oracle decides
+/// from what the encodings actually carry, see `oracle`).
 fn class_of(b: Builder, v: &ScalarValue) -> &'static str {
     match v {
         ScalarValue::Float64(f) if !f.is_finite() => "nonfinite-float",
@@ -910,12 +1046,55 @@ fn class_of(b: Builder, v: &ScalarValue) -> &'static str {
     }
 }
 
-struct Verdict {
-    fails: Vec<(&'static str, String)>,
+/// Kind of a cell value, for the statistics.
+fn kind_of(v: &ScalarValue) -> &'static str {
+    match v {
+        ScalarValue::Null => "null",
+        ScalarValue::Boolean(_) => "bool",
+        ScalarValue::Int64(_) => "int",
+        ScalarValue::Timestamp(_) => "timestamp",
+        ScalarValue::Float64(f) if f.is_finite() => "float",
+        ScalarValue::Float64(_) => "float-nonfinite",
+        ScalarValue::Utf8(s) if reparse_hint(s).is_some() => "string-json-text",
+        ScalarValue::Utf8(s) if big_u64(s).is_some() => "string-digits-above-i64max",
+        ScalarValue::Utf8(_) => "string",
+        ScalarValue::Binary(_) => "binary",
+    }
 }
 
-fn oracle(c: &Case, j: &JStream, u: &JStream, a: &AStream) -> Verdict {
+/// The value the open finding `string-reparsed` says the JSON-family encodings carry for a
+/// re-parsed string: the parsed container, or the unsigned number.
+fn reparsed_value(v: &ScalarValue) -> Option<Cell> {
+    match v {
+        ScalarValue::Utf8(s) => reparse_hint(s)
+            .map(|c| Cell::Json(c.into_bytes()))
+            .or_else(|| big_u64(s).map(|u| Cell::Int(u as i128))),
+        _ => None,
+    }
+}
+
+struct Verdict {
+    fails: Vec<(&'static str, String)>,
+    family_cells: u64,
+}
+
+/// The property on the decoded encodings.
+///
+/// `family` = every JSON-family encoding of the case (JSON frames, text frames, the other frame
+/// kind of both renderers, the three buffered renderings) with the rows it carries; `a` = the
+/// Arrow stream. A finding class explains a failing cell only when the disagreement is exactly
+/// the one the finding describes:
+///   * any two JSON-family encodings differ on a cell            → `-` (always a violation)
+///   * the family carries null for a non-finite float            → `nonfinite-float`
+///   * the family carries the parsed container / unsigned number
+///     of a re-parsed string (all of them the same value)         → `string-reparsed`
+///   * the family carries anything else than the cell's value    → `-`
+///   * Arrow differs from the cell's value and the cell's runtime
+///     type is not the column's declared type                     → `arrow-type-mismatch`
+///   * Arrow differs from a conforming cell's value              → `-`
+fn oracle(c: &Case, j: &JStream, u: &JStream, a: &AStream, family: &[(&'static str, Vec<Vec<Cell>>)], rendered: &[(&'static str, &Rendered)]) -> Verdict {
     let mut fails: Vec<(&'static str, String)> = vec![];
+    let mut family_cells = 0u64;
     let mut add = |cl: &'static str, d: String| {
         if !fails.iter().any(|(c, _)| *c == cl) {
             fails.push((cl, d));
@@ -929,45 +1108,76 @@ fn oracle(c: &Case, j: &JStream, u: &JStream, a: &AStream) -> Verdict {
         add("-", "column names differ between encodings / from the schema".into());
     }
     let exp = expected_rows(c);
-    let (jr, ur, ar) = (j.rows(), u.rows(), a.rows());
-    if jr.len() != exp.len() || ur.len() != exp.len() || ar.len() != exp.len() {
-        add("-", format!("row counts: expected {} json {} unix {} arrow {}", exp.len(), jr.len(), ur.len(), ar.len()));
-        return Verdict { fails };
+    for (tag, r) in rendered {
+        let rn: Vec<Vec<u8>> = r.cols.iter().map(|(n, _)| n.clone()).collect();
+        if rn != names {
+            add("-", format!("{tag}: column names differ from the schema"));
+        }
+        if r.status != Some(200) || r.count.is_some_and(|n| n != exp.len() as i128) {
+            add("-", format!("{tag}: status {:?} count {:?} for {} rows", r.status, r.count, exp.len()));
+        }
     }
-    if j.end != Some(jr.len() as i128) || u.end != Some(ur.len() as i128) {
-        add("-", format!("announced {:?}/{:?} emitted {}", j.end, u.end, jr.len()));
+    let ar = a.rows();
+    if ar.len() != exp.len() || family.iter().any(|(_, rows)| rows.len() != exp.len()) {
+        add(
+            "-",
+            format!(
+                "row counts: expected {} arrow {} {}",
+                exp.len(),
+                ar.len(),
+                family.iter().map(|(t, r)| format!("{t} {}", r.len())).collect::<Vec<_>>().join(" ")
+            ),
+        );
+        return Verdict { fails, family_cells };
+    }
+    if j.end != Some(exp.len() as i128) || u.end != Some(exp.len() as i128) {
+        add("-", format!("announced {:?}/{:?} emitted {}", j.end, u.end, exp.len()));
     }
     for (ri, row) in exp.iter().enumerate() {
-        if jr[ri].len() != row.len() || ur[ri].len() != row.len() || ar[ri].len() != row.len() {
+        if ar[ri].len() != row.len() || family.iter().any(|(_, rows)| rows[ri].len() != row.len()) {
             add("-", format!("row {ri}: cell counts differ"));
             continue;
         }
         for (ci, v) in row.iter().enumerate() {
             let b = builder_of(&c.cols[ci].1);
             let want = logical(v);
-            let (jc, uc, ac) = (&jr[ri][ci], &ur[ri][ci], &ar[ri][ci]);
-            let ok = if matches!(v, ScalarValue::Binary(_)) {
-                // raw bytes have no logical rendering in the property; the encodings must agree
-                cell_eq(jc, uc) && cell_eq(jc, ac)
-            } else {
-                cell_eq(jc, &want) && cell_eq(uc, &want) && cell_eq(ac, &want)
+            let ac = &ar[ri][ci];
+            let describe = || {
+                format!(
+                    "row {ri} col {ci} declared {:?} value {} : {} arrow {}",
+                    c.cols[ci].1,
+                    cell_token(v),
+                    family.iter().map(|(t, rows)| format!("{t} {}", show_cell(&rows[ri][ci]))).collect::<Vec<_>>().join(" "),
+                    show_cell(ac)
+                )
             };
-            if !ok {
-                add(
-                    class_of(b, v),
-                    format!(
-                        "row {ri} col {ci} declared {:?} value {} : json {} unix {} arrow {}",
-                        c.cols[ci].1,
-                        cell_token(v),
-                        show_cell(jc),
-                        show_cell(uc),
-                        show_cell(ac)
-                    ),
-                );
+            // 1. the JSON-family encodings among themselves (pairwise: all equal the first)
+            let (t0, rows0) = &family[0];
+            let jc = &rows0[ri][ci];
+            family_cells += family.len() as u64;
+            if let Some((t, _)) = family.iter().skip(1).find(|(_, rows)| !(rows[ri][ci] == *jc || cell_eq(&rows[ri][ci], jc))) {
+                add("-", format!("JSON-family encodings {t0} and {t} carry different values: {}", describe()));
+                continue;
+            }
+            // 2. the family against the cell's own value
+            let binary = matches!(v, ScalarValue::Binary(_));
+            if !binary && !cell_eq(jc, &want) {
+                let cl = match v {
+                    ScalarValue::Float64(f) if !f.is_finite() && *jc == Cell::Null => "nonfinite-float",
+                    _ if reparsed_value(v).as_ref() == Some(jc) => "string-reparsed",
+                    _ => "-",
+                };
+                add(cl, describe());
+            }
+            // 3. Arrow against the cell's own value (raw bytes have no logical rendering in the
+            //    property: there the encodings must agree with each other)
+            let arrow_ok = if binary { cell_eq(jc, ac) } else { *ac == want || cell_eq(ac, &want) };
+            if !arrow_ok {
+                add(if conforms(b, v) { "-" } else { "arrow-type-mismatch" }, describe());
             }
         }
     }
-    Verdict { fails }
+    Verdict { fails, family_cells }
 }
 
 // ------------------------------------------------------------------ errors
@@ -1029,7 +1239,45 @@ fn run_table_case(s: &mut Stream, rt: &tokio::runtime::Runtime, i: u64, c: &Case
                         return;
                     }
                 };
-                let imp = format!("{} | {} | {}", j.show("J"), u.show("U"), ar.show());
+                // the other frame kind of both renderers, called directly on the rows the response has
+                // to contain, and the buffered table rendering of the three renderers
+                let exp_rows: Vec<Vec<ScalarValue>> = expected_rows(c).into_iter().cloned().collect();
+                let col_refs: Vec<&str> = c.cols.iter().map(|(n, _)| n.as_str()).collect();
+                let direct = |rend: &dyn Renderer| -> Result<Vec<Vec<Cell>>, String> {
+                    let mut all = vec![];
+                    let mut buf = vec![];
+                    if batch_mode {
+                        for row in &exp_rows {
+                            rend.stream_row(&col_refs, row, &mut buf);
+                            all.extend_from_slice(&buf);
+                        }
+                    } else {
+                        rend.stream_batch(&col_refs, &exp_rows, &mut buf);
+                        all.extend_from_slice(&buf);
+                    }
+                    decode_bare_frames(&all, &c.cols)
+                };
+                let table = Response::ok_table(c.cols.clone(), exp_rows.clone(), exp_rows.len());
+                let parts = (
+                    direct(&JsonRenderer),
+                    direct(&UnixRenderer),
+                    decode_rendered('j', &JsonRenderer.render(&table)),
+                    decode_rendered('u', &UnixRenderer.render(&table)),
+                    decode_rendered('a', &ArrowRenderer.render(&table)),
+                );
+                let (jx, ux, rj, ru, ra) = match parts {
+                    (Ok(a), Ok(b), Ok(c), Ok(d), Ok(e)) => (a, b, c, d, e),
+                    (a, b, c, d, e) => {
+                        let e = format!(
+                            "undecodable direct-json={:?} direct-unix={:?} render-json={:?} render-unix={:?} render-arrow={:?}",
+                            a.err(), b.err(), c.err(), d.err(), e.err()
+                        );
+                        s.case(&op, &e, false);
+                        s.oracle_fail(i, "-", &e);
+                        return;
+                    }
+                };
+                let show_rows = |tag: &str, rows: &Vec<Vec<Cell>>| format!("{tag} rows={}", rows.iter().map(|r| show_row(r)).collect::<String>());
                 let total: usize = c.batches.iter().map(|b| b.len()).sum();
                 let emitted = j.rows().len();
                 // distribution
@@ -1083,8 +1331,33 @@ fn run_table_case(s: &mut Stream, rt: &tokio::runtime::Runtime, i: u64, c: &Case
                         }
                     }
                 }
-                s.case(&op, &imp, emitted > 0);
-                let v = oracle(c, &j, &u, &ar);
+                for row in &exp_rows {
+                    for v in row {
+                        s.tally(&format!("kind:{}", kind_of(v)));
+                    }
+                }
+                // one compared line per encoding, each against its own model function
+                s.case(&op, &j.show("J"), emitted > 0);
+                s.case("+U", &u.show("U"), false);
+                s.case("+A", &ar.show(), false);
+                s.case("+JX", &show_rows("JX", &jx), false);
+                s.case("+UX", &show_rows("UX", &ux), false);
+                s.case("+RJ", &rj.show("RJ"), false);
+                s.case("+RU", &ru.show("RU"), false);
+                s.case("+RA", &ra.show("RA"), false);
+                let (fj, fu) = if batch_mode { ("json-batch", "unix-batch") } else { ("json-row", "unix-row") };
+                let (xj, xu) = if batch_mode { ("json-row", "unix-row") } else { ("json-batch", "unix-batch") };
+                let family: Vec<(&'static str, Vec<Vec<Cell>>)> = vec![
+                    (fj, j.rows().into_iter().cloned().collect()),
+                    (fu, u.rows().into_iter().cloned().collect()),
+                    (xj, jx),
+                    (xu, ux),
+                    ("json-render", rj.rows.clone()),
+                    ("unix-render", ru.rows.clone()),
+                    ("arrow-render", ra.rows.clone()),
+                ];
+                let v = oracle(c, &j, &u, &ar, &family, &[("json-render", &rj), ("unix-render", &ru), ("arrow-render", &ra)]);
+                s.tally_n("family_cells_compared", v.family_cells);
                 if v.fails.is_empty() {
                     s.oracle_ok();
                 } else {
@@ -1213,7 +1486,7 @@ fn run_sys(a: &snel_harness::out::Args) {
                 let v: String = match ft {
                     "int" => r.pick(&["5", "-7", "9223372036854775807", "0"]).to_string(),
                     "float" | "float | null" => r.pick(&["1.5", "2", "2.0", "-0.0", "1e300", "3", "null"]).to_string(),
-                    "string" | "string | null" => r.pick(&["\"abc\"", "\"5\"", "\"[1,2]\"", "\"18446744073709551615\"", "\"true\"", "\"\"", "\"é\"", "null"]).to_string(),
+                    "string" | "string | null" => r.pick(&["\"abc\"", "\"5\"", "\"[1,2]\"", "\"18446744073709551615\"", "\"true\"", "\"\"", "\"é\"", "null", "\"{\\\"a\\\":1}\"", "\"[]\"", "\"9223372036854775808\""]).to_string(),
                     "bool" => r.pick(&["true", "false"]).to_string(),
                     "u64" => r.pick(&["5", "18446744073709551615", "9223372036854775808", "0"]).to_string(),
                     "datetime" => r.pick(&["1700000000", "\"2024-01-02T03:04:05Z\"", "1700000000123"]).to_string(),
@@ -1308,7 +1581,16 @@ fn run_sys(a: &snel_harness::out::Args) {
                         continue;
                     };
                     for ci in 0..row.len() {
-                        if !(cell_eq(&row[ci], &urow[ci]) && cell_eq(&row[ci], &arow[ci])) {
+                        if !cell_eq(&row[ci], &urow[ci]) {
+                            // the JSON-family encodings must agree with each other: never a known class
+                            if !fails.iter().any(|(c, _)| *c == "-") {
+                                fails.push(("-", format!(
+                                    "{def} ; f={ft} flushed={flushed} ; {q} : column {} : JSON frames carry {} but text frames carry {} (arrow {})",
+                                    String::from_utf8_lossy(&j.cols[ci].0), show_cell(&row[ci]), show_cell(&urow[ci]), show_cell(&arow[ci]))));
+                            }
+                            continue;
+                        }
+                        if !cell_eq(&row[ci], &arow[ci]) {
                             let lt = String::from_utf8_lossy(&j.cols[ci].1).to_string();
                             let b = builder_of(&lt);
                             // class from the decoded cells: the declared builder vs. what JSON carries
